@@ -50,6 +50,11 @@ def _config(rng, kind):
         moves = ["sh"] * n
     elif kind == "allwf":
         moves = ["sh"] + ["wf"] * (n - 1)
+    elif kind == "wf0only":
+        # wire fencing in [0+] only, capped at the very next interface: every
+        # [0+] path is extended beyond the cap, shooting ensembles sit above
+        n = max(n, 4)
+        moves = ["sh", "wf"] + ["sh"] * (n - 2)
     elif kind == "wf0cap":
         # wf in [0+] and a cap strictly below the last interface
         n = max(n, 4)
@@ -61,7 +66,7 @@ def _config(rng, kind):
             moves[rng.randint(1, n - 1)] = "wf"
     cap = None
     wf_idx = [i for i, m in enumerate(moves) if m == "wf"]
-    if wf_idx and kind == "wf0cap":
+    if wf_idx and kind in ("wf0cap", "wf0only"):
         # the lowest cap the configuration admits: the most stringent use
         cap = max(wf_idx) + 0.5
     elif wf_idx and rng.random() < 0.4:
@@ -77,11 +82,12 @@ def _config(rng, kind):
 def plan(tier, seed):
     rng = random.Random(f"C01-{seed}")
     if tier == "quick":
-        kinds = ["wf0cap", rng.choice(["allsh", "mixed", "allwf"])]
+        kinds = ["wf0cap", "wf0only", rng.choice(["allsh", "mixed", "allwf"])]
         R, steps = 48, 1800
     else:
         kinds = ["wf0cap", "allsh", "allwf", "mixed", "mixed", "wf0cap",
-                 "mixed", "allsh", "mixed", "allwf", "wf0cap", "mixed"]
+                 "mixed", "allsh", "mixed", "allwf", "wf0only", "mixed",
+                 "wf0only"]
         R, steps = 48, 7000
     # "across restarts": one configuration per run (three in the thorough
     # tier) is a restart chain - every replica is stopped and restarted every
